@@ -27,14 +27,15 @@ def unknown_for(key, field_names):
     return not (normal_forms(key) & low) and key not in field_names
 
 
-def gen_case(rng, policy, depth):
+def gen_case(rng, policy, depth, where='own'):
+    """`where` = 'root': the raise policy is declared in the Meta of the outermost class only and reaches the target through the cascade"""
     o = gen.Opts(meta_keys=[], meta_prob=0.0, allow_union=False, allow_nt=False, allow_td=False, allow_cls=False,
                  leaves=['int', 'str', 'bool', 'float', 'any'], containers=['list', 'dict'], max_fields=4, wizard_prob=0.7,
                  py_wizard_prob=0.0)
     ty = gen.gen_cls(rng, 1, o)
     info = ty['info']
     meta = {}
-    if policy == 'raise':
+    if policy == 'raise' and where == 'own':
         meta['raise_on_unknown_json_key'] = True
     if rng.random() < 0.3:
         meta['key_transform_with_load'] = rng.choice(['SNAKE', 'CAMEL', 'NONE'])
@@ -56,12 +57,77 @@ def gen_case(rng, policy, depth):
         ty['ftys'].append(['extras_fld', T('any')])
     # nest it `depth` levels down
     target = ty
-    for _ in range(depth):
+    for lvl in range(depth):
+        outer_meta = {'raise_on_unknown_json_key': True} if (policy == 'raise' and where == 'root' and lvl == depth - 1) else None
         outer = {'k': 'cls', 'info': {'name': model.fresh('O'), 'fields': [{'name': 'inner_obj'}, {'name': 'num', 'dflt': ['lit', 0], 'factory': False}],
-                                      'wizard': True, 'meta': None},
+                                      'wizard': True, 'meta': outer_meta},
                  'ftys': [['inner_obj', rng.choice([ty, T('list', ty)]) if False else ty], ['num', T('int')]]}
         ty = outer
     return ty, target
+
+
+# --------------------------------------------------------------------------- multi-step histories: the same class seen from several sides
+#
+# A *view* of the target class is a way of reaching it: through the root of the case (nesting depth 0..2), through a second root class
+# that nests it directly (with a Meta of its own, whose unknown-key policy may differ from the first root's), or on its own
+# (fromdict(Target, ...)).  The library generates one load function per (root, nested class) and keeps per-class tables for ever, so the
+# order in which the views are used is part of the input.  Every view is checked against the specification of *its* effective policy:
+# the class's own setting wins, otherwise the setting of the root of that view, otherwise "ignore"; a CatchAll field captures in every view.
+
+def plan_views(rng, depth, can_own=True):
+    """extra views of the target and where they run relative to the case's own root: list of (view, 'before' | 'after')"""
+    r = rng.random()
+    kinds = ['second'] + (['own'] if depth > 0 and can_own else [])
+    if r < 0.45:
+        picked = []
+    elif r < 0.85 or len(kinds) == 1:
+        picked = [rng.choice(kinds)]
+    else:
+        picked = list(kinds)
+        rng.shuffle(picked)
+    return [(k, rng.choice(['before', 'after'])) for k in picked]
+
+
+def draw_unknown(rng, fnames, has_tag, tag_key, counts=(0, 1, 1, 2, 3), exclude=()):
+    k = rng.choice(counts)
+    U = {}
+    for key in rng.sample(EXTRA_POOL, k):
+        v = rng.choice([1, 'v', None, [1, 2], {'a': 1}, True, 2.5])
+        if unknown_for(key, fnames) and not (has_tag and key == tag_key) and key not in exclude:
+            U[key] = v
+    return U
+
+
+def with_unknown(rng, inner, U):
+    """the target's part of the document with the pairs of U inserted at random positions"""
+    items = list(copy.deepcopy(inner).items())
+    for key, v in U.items():
+        items.insert(rng.randint(0, len(items)), (key, v))
+    return dict(items)
+
+
+def view_doc(view_depth, inner, outer_base=None, depth=0):
+    """the document of a view: the target's part `inner` below `view_depth` levels of {'inner_obj': ...}"""
+    if outer_base is not None:
+        d = copy.deepcopy(outer_base)
+        cur = d
+        for _ in range(depth - 1):
+            cur = cur['inner_obj']
+        if depth:
+            cur['inner_obj'] = inner
+            return d
+        return inner
+    d = inner
+    for _ in range(view_depth):
+        d = {'inner_obj': d}
+    return d
+
+
+def second_root_src(name, tname, meta_lines):
+    s = f'@dataclass\nclass {name}(JSONWizard):\n'
+    if meta_lines:
+        s += '    class _(JSONWizard.Meta):\n' + ''.join(f'        {ln}\n' for ln in meta_lines)
+    return s + f'    inner_obj: {tname}\n    num: int = 0\n'
 
 
 def inner_doc(doc, depth):
@@ -80,10 +146,12 @@ def run_default(ctx: C.Ctx):
     from dataclass_wizard.errors import UnknownKeysError
     rng = ctx.rng
     gen.SUBS = False
-    ctx.rule = ('policy in {ignore, raise, catch-all, catch-all with default} × nesting depth 0..2 × a complete document plus a set U '
-                'of 0..3 extra keys none of whose casing-normalisations reaches a field (near-miss spellings, non-identifiers, the tag '
-                'key of tagged classes) × the same call repeated 1..3 times, default engine: outcome vs the specification, vs the Lean '
-                'model, and to_dict(from_dict(d)) for catch-all. Non-trivial = distinct (class, document) with U non-empty.')
+    ctx.rule = ('policy in {ignore, raise (declared on the class itself or cascading from the root), catch-all, catch-all with default} × nesting '
+                'depth 0..2 × a complete document plus a set U of 0..3 extra keys none of whose casing-normalisations reaches a field (near-miss '
+                'spellings, non-identifiers, the tag key of tagged classes) × the same call repeated 1..3 times × multi-step history over views of '
+                'the same class (through the case root, through a second root class with or without a raise policy of its own, loaded on its own; '
+                'before or after one another, each view with its own U and judged by the policy effective in that view), default engine: outcome '
+                'vs the specification, vs the Lean model, and to_dict(from_dict(d)) for catch-all. Non-trivial = distinct (class, document) with U non-empty.')
     n = ctx.quick(700, 8000)
     reqs, pend = [], []
     for i in range(n):
@@ -91,9 +159,17 @@ def run_default(ctx: C.Ctx):
             break
         policy = rng.choice(['ignore', 'raise', 'raise', 'catchall', 'catchall-default'])
         depth = rng.choice([0, 0, 1, 2])
-        ty, target = gen_case(rng, policy, depth)
+        catch = policy in ('catchall', 'catchall-default')
+        where = 'root' if policy == 'raise' and depth > 0 and rng.random() < 0.5 else 'own'
+        ty, target = gen_case(rng, policy, depth, where)
+        plan = plan_views(rng, depth)
+        sec_raise = (not catch) and rng.random() < 0.5
+        sec_name = model.fresh('S')
+        extra_src = ''
+        if any(k == 'second' for k, _ in plan):
+            extra_src = second_root_src(sec_name, target['info']['name'], ['raise_on_unknown_json_key = True'] if sec_raise else [])
         try:
-            built = model.Built(ty)
+            built = model.Built(ty, extra_src=extra_src)
         except Exception as e:
             ctx.count('build_error')
             ctx.notes.setdefault('build_errors', []).append(repr(e)[:300])
@@ -110,28 +186,58 @@ def run_default(ctx: C.Ctx):
             has_tag = tmeta.get('tag') is not None
             if has_tag and rng.random() < 0.5:
                 inner_doc(base, depth).pop(tag_key, None)
-            k = rng.choice([0, 1, 1, 2, 3])
-            U = {}
-            for key in rng.sample(EXTRA_POOL, k):
-                if unknown_for(key, fnames) and not (has_tag and key == tag_key):
-                    U[key] = rng.choice([1, 'v', None, [1, 2], {'a': 1}, True, 2.5])
-            d = copy.deepcopy(base)
-            tgt = inner_doc(d, depth)
-            items = list(tgt.items())
-            for key, v in U.items():
-                items.insert(rng.randint(0, len(items)), (key, v))
-            tgt.clear()
-            tgt.update(items)
-            reps = rng.choice([1, 2, 3])
+            # ---- the views in execution order, each with its effective policy and its own set of unknown keys
+            own_raise = policy == 'raise' and where == 'own'
+            views = [dict(view='root', cls=None, depth=depth, policy=policy, pos='primary')]
+            for kind_v, pos in plan:
+                if kind_v == 'second':
+                    pol_v = policy if catch else ('raise' if own_raise or sec_raise else 'ignore')
+                    v = dict(view='second', cls=sec_name, depth=1, policy=pol_v, pos=pos)
+                else:
+                    pol_v = policy if catch else ('raise' if own_raise else 'ignore')
+                    v = dict(view='own', cls=tinfo['name'], depth=0, policy=pol_v, pos=pos)
+                if pos == 'before':
+                    views.insert(next(ix for ix, w in enumerate(views) if w['pos'] == 'primary'), v)
+                else:
+                    views.append(v)
+            # Unchanged-code finding kept out of the histories (findings/ignored-key-cache-defeats-cascaded-raise.md): the default engine
+            # caches a key it ignored per class (json_to_field[key] = ExplicitNull) and a function generated later for the same class under
+            # a raise policy reads that cache, so a key first seen under "ignore" is not rejected afterwards.  A view whose policy is
+            # "raise" therefore never gets a key that an earlier view of the same class presented under "ignore".
+            ignored_before = set()
+            inner_base = inner_doc(base, depth)
+            for v in views:
+                v['U'] = draw_unknown(rng, fnames, has_tag, tag_key, exclude=ignored_before if v['policy'] == 'raise' else ())
+                if v['policy'] == 'ignore':
+                    ignored_before |= set(v['U'])
+                inner_u = with_unknown(rng, inner_base, v['U'])
+                if v['view'] == 'root':
+                    v['base'], v['doc'] = base, view_doc(depth, inner_u, base, depth)
+                else:
+                    v['base'], v['doc'] = view_doc(v['depth'], copy.deepcopy(inner_base)), view_doc(v['depth'], inner_u)
+                v['reps'] = rng.choice([1, 2, 3]) if v['view'] == 'root' else rng.choice([1, 1, 2])
+            prim = next(v for v in views if v['view'] == 'root')
+            U, d, reps = prim['U'], prim['doc'], prim['reps']
             if not ctx.begin_case(i):
                 continue
-            case = {'ty': ty, 'doc': repr(d)[:500], 'policy': policy, 'depth': depth, 'U': repr(U), 'reps': reps}
+            hist = [v['view'] for v in views]
+            case = {'ty': ty, 'doc': repr(d)[:500], 'policy': policy, 'depth': depth, 'U': repr(U), 'reps': reps, 'where': where,
+                    'history': [[v['view'], v['policy'], sorted(v['U'])] for v in views], 'second_root_raises': sec_raise}
             ctx.seen('unknown:' + policy, case, nontrivial=bool(U))
+            if len(views) > 1:
+                ctx.count('history:' + '>'.join(hist))
             src = dict(src=built.source)
-            base_out = load_outcome(lambda: fromdict(built.root, copy.deepcopy(base)))
-            outs = [load_outcome(lambda: fromdict(built.root, copy.deepcopy(d))) for _ in range(reps)]
-            for rep, out in enumerate(outs, 1):
-                check(ctx, case, rep, policy, out, base_out, U, depth, target, built, src, has_tag, tag_key, d)
+            outs = None
+            for v in views:
+                cls_v = built.root if v['cls'] is None else built.get(v['cls'])
+                base_out_v = load_outcome(lambda: fromdict(cls_v, copy.deepcopy(v['base'])))
+                outs_v = [load_outcome(lambda: fromdict(cls_v, copy.deepcopy(v['doc']))) for _ in range(v['reps'])]
+                case_v = case if v['view'] == 'root' else dict(case, view=v['view'], view_doc=repr(v['doc'])[:500], view_policy=v['policy'],
+                                                               step=f'{views.index(v) + 1} of {">".join(hist)}')
+                for rep, out in enumerate(outs_v, 1):
+                    check(ctx, case_v, rep, v['policy'], out, base_out_v, v['U'], v['depth'], target, built, src, has_tag, tag_key, v['doc'])
+                if v['view'] == 'root':
+                    outs = outs_v
             st = model.StdTables()
             st.add_json(d)
             reqs.append({'op': 'load', 'ty': model.enc_ty(ty), 'doc': model.enc_j(d), 'std': st.build()})
@@ -219,8 +325,10 @@ V1_POLICIES = ['ignore', 'ignore-explicit', 'raise', 'raise', 'warn', 'catchall'
 
 
 def gen_case_v1(rng, policy, depth, nm):
-    """(root type, target type, where the policy is declared): the target carries `policy` either in its own Meta or — when nested —
-    through the ROOT's Meta (cascade); the root is always bound to the v1 engine"""
+    """(root type, target type, where the policy is declared, facts): the target carries `policy` either in its own Meta or — when nested —
+    through the ROOT's Meta (cascade); the root is always bound to the v1 engine.  `facts` = {'own_setting', 'root_setting', 'can_own'}:
+    the v1_on_unknown_key value the target / the root declares, and whether the target can be loaded on its own by the v1 engine
+    (its own Meta says v1 = True)"""
     o = gen.Opts(meta_keys=[], meta_prob=0.0, allow_union=False, allow_nt=False, allow_td=False, allow_cls=False,
                  leaves=['int', 'str', 'bool', 'float', 'any'], containers=['list', 'dict'], max_fields=4, wizard_prob=0.7,
                  py_wizard_prob=0.0)
@@ -241,32 +349,80 @@ def gen_case_v1(rng, policy, depth, nm):
         meta['tag'] = nm('tg')
         if rng.random() < 0.5:
             meta['tag_key'] = rng.choice(['type', 'kind'])
+    # a nested target may declare v1 = True itself (then it can also be loaded on its own by the v1 engine)
+    can_own = depth > 0 and rng.random() < 0.5
+    if can_own:
+        meta['v1'] = True
+    # auto_assign_tags: the first dump of such a class re-generates its load function (load → dump → load histories)
+    root_extra = {}
+    if rng.random() < 0.15:
+        (meta if (depth == 0 or can_own) else root_extra)['auto_assign_tags'] = True
+    # ---- several load aliases for one key: Alias('a', 'b') / Alias(load=(...)) / Meta.v1_field_to_alias
+    plain = [f for f in info['fields']]
+    if plain and rng.random() < 0.4:
+        styles = ['all', 'load'] + (['meta'] if (depth == 0 or can_own) else [])
+        used = {f['name'] for f in plain}
+        for f in rng.sample(plain, min(len(plain), rng.choice([1, 1, 2]))):
+            n = f['name']
+            cands = [n + '_alt', v1streams.camel(n) + 'X', n.upper(), 'k-' + v1streams.kebab(n), n + ' 2', 'the.' + n, n + '0']
+            keys = [k for k in rng.sample(cands, rng.choice([1, 2, 2, 3, 3])) if k not in used]
+            if not keys:
+                continue
+            used |= set(keys)
+            f['load_keys'] = keys
+            f['v1_alias'] = rng.choice(styles)
+            if f['v1_alias'] in ('all', 'meta'):
+                f['dump_all'] = True
+        m_al = {f['name']: tuple(f['load_keys']) for f in plain if f.get('v1_alias') == 'meta'}
+        if m_al:
+            meta['v1_field_to_alias'] = m_al
     if policy in ('catchall', 'catchall-default'):
         cf = {'name': 'extras_fld', 'catch_all': True}
+        nf = len(info['fields'])
         if policy == 'catchall-default':
             cf['dflt'] = ['lit', None] if rng.random() < 0.98 else ['dict']
             cf['factory'] = cf['dflt'][0] != 'lit'
-            info['fields'].append(cf)
+            # any position after the last field without a default
+            lo = max([ix + 1 for ix, f in enumerate(info['fields']) if f.get('dflt') is None], default=0)
+            info['fields'].insert(rng.randint(lo, nf), cf)
         else:
-            idx = next((i for i, f in enumerate(info['fields']) if f.get('dflt') is not None), len(info['fields']))
-            info['fields'].insert(idx, cf)
+            # a field without default must precede defaulted ones: any position up to the first defaulted field
+            idx = next((i for i, f in enumerate(info['fields']) if f.get('dflt') is not None), nf)
+            info['fields'].insert(rng.randint(0, idx), cf)
         ty['ftys'].append(['extras_fld', T('any')])
     target = ty
+    facts = {'own_setting': pol.get('v1_on_unknown_key') if where == 'own' else None,
+             'root_setting': pol.get('v1_on_unknown_key') if where == 'root' else None, 'can_own': can_own}
     if depth == 0:
         meta['v1'] = True
         info['meta'] = meta
-        return ty, target, where
+        return ty, target, where, facts
     info['meta'] = meta or None
     for lvl in range(depth):
         outer_meta = None
         if lvl == depth - 1:
             outer_meta = dict(pol) if where == 'root' else {}
+            outer_meta.update(root_extra)
             outer_meta['v1'] = True
         outer = {'k': 'cls', 'info': {'name': nm('O'), 'fields': [{'name': 'inner_obj'}, {'name': 'num', 'dflt': ['lit', 0], 'factory': False}],
                                       'wizard': True, 'meta': outer_meta},
                  'ftys': [['inner_obj', ty], ['num', T('int')]]}
         ty = outer
-    return ty, target, where
+    return ty, target, where, facts
+
+
+def v1_eff_policy(policy, catch, own_setting, root_setting):
+    """the policy in force for the target in a view: a CatchAll field captures everywhere; otherwise the class's own v1_on_unknown_key wins,
+    else the one of the view's root, else unknown keys are dropped"""
+    if catch:
+        return policy
+    return {'RAISE': 'raise', 'WARN': 'warn', 'IGNORE': 'ignore-explicit', None: 'ignore'}[own_setting or root_setting]
+
+
+def respell(rng, inner, tinfo):
+    """the target's part of a document with every aliased field spelled by ONE of its load aliases (chosen at random)"""
+    ren = {f['name']: rng.choice(f['load_keys']) for f in tinfo['fields'] if f.get('v1_alias') and f.get('load_keys')}
+    return {ren.get(k, k): copy.deepcopy(v) for k, v in inner.items()}
 
 
 class _Records:
@@ -297,6 +453,37 @@ class _Records:
         self.log.setLevel(lvl)
 
 
+def eval_view_v1(ctx, kind, case, cls_v, v, target, built, src, has_tag, tag_key, fkey, dump_between):
+    """load the view's complete document, then its document with unknown keys `reps` times (optionally dumping every loaded instance
+    before the next load), and judge every outcome by the policy in force in this view"""
+    from dataclass_wizard import fromdict, asdict
+    policy, U = v['policy'], v['U']
+    with _Records() as rec:
+        base_out = load_outcome(lambda: fromdict(cls_v, copy.deepcopy(v['base'])))
+        n_base = len(rec.records)
+        outs = []
+        for _ in range(v['reps']):
+            before = len(rec.records)
+            outs.append(load_outcome(lambda: fromdict(cls_v, copy.deepcopy(v['doc']))))
+            if policy == 'warn' and base_out[0] == 'ok':
+                warned = len(rec.records) > before
+                if warned != bool(U):
+                    ctx.fail(kind, case, f'WARN policy: unknown keys {sorted(U)}, a warning was {"" if warned else "not "}logged', detail=src)
+            if dump_between and outs[-1][0] == 'ok':
+                try:
+                    asdict(outs[-1][1])
+                except Exception as e:
+                    ctx.fail(kind, case, f'to_dict of the loaded instance raised {e!r}'[:600], key=fkey, detail=src)
+        if policy == 'warn' and n_base:
+            ctx.fail(kind, case, 'WARN policy: a warning was logged for a document without unknown keys', detail=src)
+    for rep, out in enumerate(outs, 1):
+        nf = len(ctx.failures)
+        check_v1(ctx, kind, case, rep, policy, out, base_out, U, v['depth'], target, built, src, has_tag, tag_key, v['doc'], key=fkey)
+        if fkey is not None and len(ctx.failures) > nf:
+            break          # a known finding: one record per case is enough
+    return outs
+
+
 def run_v1(ctx: C.Ctx):
     from dataclass_wizard import fromdict, asdict
     from dataclass_wizard.errors import UnknownKeysError, JSONWizardError
@@ -319,7 +506,7 @@ def run_v1(ctx: C.Ctx):
         nm = v1streams.Namer(j)
         policy = rng.choice(V1_POLICIES)
         depth = rng.choice([0, 0, 1, 2])
-        ty, target, where = gen_case_v1(rng, policy, depth, nm)
+        ty, target, where, facts = gen_case_v1(rng, policy, depth, nm)
         tinfo = target['info']
         catch = policy in ('catchall', 'catchall-default')
         history = 'load-first'
@@ -331,6 +518,13 @@ def run_v1(ctx: C.Ctx):
         if history == 'second-root':
             extra_src = ('@dataclass\nclass Second(JSONWizard):\n    class _(JSONWizard.Meta):\n        v1 = True\n'
                          f'    inner_obj: {tinfo["name"]}\n')
+        # ---- multi-step history over views of the target (see plan_views)
+        plan = plan_views(rng, depth, can_own=facts['can_own'])
+        sec_setting = None if catch else rng.choice([None, None, 'RAISE', 'WARN'])
+        sec_name = nm('S')
+        dump_between = rng.random() < 0.3
+        if any(kv == 'second' for kv, _ in plan):
+            extra_src += second_root_src(sec_name, tinfo['name'], ['v1 = True'] + ([f'v1_on_unknown_key = {sec_setting!r}'] if sec_setting else []))
         try:
             built = model.Built(ty, extra_src=extra_src)
         except Exception as e:
@@ -339,7 +533,8 @@ def run_v1(ctx: C.Ctx):
             continue
         try:
             x = gen.gen_instance(rng, ty, built, use_defaults_prob=0.2)
-            fnames = [f['name'] for f in tinfo['fields'] if not f.get('catch_all')]
+            aliased = [f for f in tinfo['fields'] if f.get('v1_alias') and f.get('load_keys')]
+            fnames = [f['name'] for f in tinfo['fields'] if not f.get('catch_all')] + [k for f in aliased for k in f['load_keys']]
             base = json.loads(json.dumps(plain_doc(x, ty, built)))
             inner_doc(base, depth).pop('extras_fld', None)
             tmeta = tinfo.get('meta') or {}
@@ -347,19 +542,29 @@ def run_v1(ctx: C.Ctx):
             has_tag = tmeta.get('tag') is not None
             if has_tag and rng.random() < 0.5:
                 inner_doc(base, depth).pop(tag_key, None)
-            k = rng.choice([0, 1, 1, 1, 2, 3])
-            U = {}
-            for key in rng.sample(EXTRA_POOL, k):
-                if unknown_for(key, fnames) and not (has_tag and key == tag_key):
-                    U[key] = rng.choice([1, 'v', None, [1, 2], {'a': 1}, True, 2.5])
-            d = copy.deepcopy(base)
-            tgt = inner_doc(d, depth)
-            items = list(tgt.items())
-            for key, v in U.items():
-                items.insert(rng.randint(0, len(items)), (key, v))
-            tgt.clear()
-            tgt.update(items)
-            reps = rng.choice([1, 2, 3])
+            views = [dict(view='root', cls=None, depth=depth, policy=policy, pos='primary')]
+            for kind_v, pos in plan:
+                if kind_v == 'second':
+                    v = dict(view='second', cls=sec_name, depth=1, pos=pos,
+                             policy=v1_eff_policy(policy, catch, facts['own_setting'], sec_setting))
+                else:
+                    v = dict(view='own', cls=tinfo['name'], depth=0, pos=pos, policy=v1_eff_policy(policy, catch, facts['own_setting'], None))
+                if pos == 'before':
+                    views.insert(next(ix for ix, w in enumerate(views) if w['pos'] == 'primary'), v)
+                else:
+                    views.append(v)
+            inner_base = inner_doc(base, depth)
+            for v in views:
+                v['U'] = draw_unknown(rng, fnames, has_tag, tag_key, counts=(0, 1, 1, 1, 2, 3))
+                inner_b = respell(rng, inner_base, tinfo)
+                inner_u = with_unknown(rng, respell(rng, inner_base, tinfo), v['U'])
+                if v['view'] == 'root':
+                    v['base'], v['doc'] = view_doc(depth, inner_b, base, depth), view_doc(depth, inner_u, base, depth)
+                else:
+                    v['base'], v['doc'] = view_doc(v['depth'], inner_b), view_doc(v['depth'], inner_u)
+                v['reps'] = rng.choice([1, 2, 3]) if v['view'] == 'root' else rng.choice([1, 1, 2])
+            prim = next(v for v in views if v['view'] == 'root')
+            U, d, reps = prim['U'], prim['doc'], prim['reps']
             pre_pairs = {kk: rng.choice([1, 'v', None, [1, 2], {'a': 1}]) for kk in rng.sample(EXTRA_POOL, 2) if unknown_for(kk, fnames)}
             if not ctx.begin_case(i):
                 continue
@@ -369,10 +574,17 @@ def run_v1(ctx: C.Ctx):
             fkey = None
             if cfld is not None and cfld.get('factory') and any(f.get('dflt') is not None and not f.get('catch_all') for f in tinfo['fields']):
                 fkey = 'v1-catchall-default-factory'
+            hist = [v['view'] for v in views]
             case = {'ty': ty, 'doc': repr(d)[:500], 'policy': policy, 'depth': depth, 'U': repr(U), 'reps': reps, 'where': where,
-                    'history': history, 'engine': 'v1', 'tag_in_doc': has_tag and tag_key in inner_doc(d, depth)}
+                    'history': history, 'engine': 'v1', 'tag_in_doc': has_tag and tag_key in inner_doc(d, depth),
+                    'views': [[v['view'], v['policy'], sorted(v['U'])] for v in views], 'second_root_setting': sec_setting,
+                    'dump_between_loads': dump_between}
             kind = 'unknown:v1:' + policy
             ctx.seen(kind, case, nontrivial=bool(U))
+            if len(views) > 1:
+                ctx.count('v1:history:' + '>'.join(hist))
+            if aliased:
+                ctx.count('v1:aliased')
             src = dict(src=built.source)
             if history == 'dump-first':
                 # an instance built in code is serialised before the class has ever been loaded
@@ -408,24 +620,14 @@ def run_v1(ctx: C.Ctx):
                     key = 'v1-catchall-second-root' if second[0] == 'err' and not isinstance(second[1], JSONWizardError) else None
                     ctx.fail(kind + ':second-root', case, f'the same document part loads as {dig(first[1], depth)!r} through the first root class, '
                              f'but through a second root class gives {second[1]!r}'[:800], key=key, detail=src)
-            with _Records() as rec:
-                base_out = load_outcome(lambda: fromdict(built.root, copy.deepcopy(base)))
-                n_base = len(rec.records)
-                outs = []
-                for _ in range(reps):
-                    before = len(rec.records)
-                    outs.append(load_outcome(lambda: fromdict(built.root, copy.deepcopy(d))))
-                    if policy == 'warn' and base_out[0] == 'ok':
-                        warned = len(rec.records) > before
-                        if warned != bool(U):
-                            ctx.fail(kind, case, f'WARN policy: unknown keys {sorted(U)}, a warning was {"" if warned else "not "}logged', detail=src)
-                if policy == 'warn' and n_base:
-                    ctx.fail(kind, case, 'WARN policy: a warning was logged for a document without unknown keys', detail=src)
-            for rep, out in enumerate(outs, 1):
-                nf = len(ctx.failures)
-                check_v1(ctx, kind, case, rep, policy, out, base_out, U, depth, target, built, src, has_tag, tag_key, d, key=fkey)
-                if fkey is not None and len(ctx.failures) > nf:
-                    break          # a known finding: one record per case is enough
+            outs = None
+            for v in views:
+                cls_v = built.root if v['cls'] is None else built.get(v['cls'])
+                case_v = case if v['view'] == 'root' else dict(case, view=v['view'], view_doc=repr(v['doc'])[:500], view_policy=v['policy'],
+                                                               step=f'{views.index(v) + 1} of {">".join(hist)}')
+                outs_v = eval_view_v1(ctx, kind, case_v, cls_v, v, target, built, src, has_tag, tag_key, fkey, dump_between)
+                if v['view'] == 'root':
+                    outs = outs_v
             if fkey is None:
                 st = model.StdTables()
                 st.add_json(d)
